@@ -243,6 +243,11 @@ def write_guard(repo: Repo) -> RuleRun:
     after2 = list(grid_.get("points"))
     moved2 = {i for i in range(n) if after2[i] != mid[i]}
     r.check(moved2 == {1, 3, 4}, smooth, "smooth(); fix_indexes([2]); smooth(): the second pass leaves point 2 alone", f"after smooth(1), fix_indexes([2]), smooth(1) the second pass moves points {sorted(moved2)}; expected {{1, 3, 4}} - a point fixed after the first pass is still moved (or a list of free points is kept from the first pass)", smooth.node, key="fix-between-passes")
+    # boundary points in the fixed set do not count against the free interior points: fixing two outline and two interior points of a
+    # map with four interior points still leaves two to be smoothed
+    inner0, js_, before, after, calls, this = run_smooth([0, 5, 1, 2])
+    moved = {i for i in range(n) if after[i] != before[i]}
+    r.check(moved == {3, 4}, smooth, "fixed = 2 outline + 2 interior points: the other 2 interior points are smoothed", f"smooth() with fixed=[0, 5, 1, 2] (two of them on the outline) moves points {sorted(moved)}; expected [3, 4] - the number of fixed indexes says nothing about how many interior points are still free", smooth.node, key="moved:outline-in-fixed")
     # the requested number of sweeps is carried out: a 1-D float model in which the LAST free point already sits at its neighbours'
     # average while the first ones are far from theirs (an early exit that looks at one point only would stop after one sweep)
     nb2 = {0: [1, 4], 1: [0, 2], 2: [1, 3], 3: [2, 5], 4: [5, 0], 5: [3, 4]}
@@ -336,6 +341,55 @@ def edge_neighbours(repo: Repo) -> RuleRun:
 
 
 edge_neighbours.rule_id = "C15.EDGE-NEIGHBOURS"
+
+
+def irregular_valence(repo: Repo) -> RuleRun:
+    """'to their neighbours' average' - of ALL edge-connected neighbours, also at an irregular interior point where five quads
+    (or more than six hexahedron edges) meet. Abstract run of GridBase._bind_junction_neighbours on a star of five quads around
+    point 0: junction 0 gets its five spoke ends, every rim junction exactly its two or three edge-connected points."""
+    from ..peval import Ref
+
+    r = RuleRun(PROP, "C15.IRREGULAR-VALENCE", floor=2, what="_bind_junction_neighbours on a 5-quad star: the centre junction gets all 5 neighbours, rim junctions theirs")
+    cinit = repo.func("optimize.cell.CellBase.__init__")
+    bind = repo.func("optimize.grid.GridBase._bind_junction_neighbours")
+    qcls = repo.cls("optimize.cell.QuadCell")
+    jcls = repo.cls("optimize.junction.Junction")
+    quads = [(0, 1, 2, 3), (0, 3, 4, 5), (0, 5, 6, 7), (0, 7, 8, 9), (0, 9, 10, 1)]
+    cells = []
+    for q in quads:
+        cell = Obj(f"cell{q}", cls=qcls)
+        _run(Evaluator(repo=repo, module=cinit.module, call_hook=np_hook()), cinit, [cell, Sym("grid_points"), list(q)])
+        cells.append(cell)
+    junctions = []
+    for k in range(11):
+        j = Obj(f"j{k}", cls=jcls)
+        j.set("index", k)
+        j.set("cells", {c for c, q in zip(cells, quads) if k in q})
+        j.set("neighbours", [])
+        j.set("points", Sym("grid_points"))
+        junctions.append(j)
+    grid = Obj("grid", cls=repo.cls("optimize.grid.QuadGrid"))
+    grid.set("junctions", junctions)
+    grid.set("cells", cells)
+    grid.set("cell_class", Ref(qcls))
+    _run(Evaluator(repo=repo, module=bind.module, call_hook=np_hook()), bind, [grid])
+    want = {0: {1, 3, 5, 7, 9}}
+    for q in quads:
+        for i in range(4):
+            a, b = q[i], q[(i + 1) % 4]
+            want.setdefault(a, set()).add(b)
+            want.setdefault(b, set()).add(a)
+    bad = []
+    for k, j in enumerate(junctions):
+        got = sorted(n.get("index") for n in j.get("neighbours"))
+        if got != sorted(want[k]):
+            bad.append(f"junction {k}: neighbours {got}, expected {sorted(want[k])}")
+    r.check(not [b for b in bad if b.startswith("junction 0:")], bind, "centre of the star: 5 neighbours", f"_bind_junction_neighbours on five quads meeting at point 0: {'; '.join(b for b in bad if b.startswith('junction 0:'))} - an interior point of valence 5 is averaged over a subset of its neighbours", bind.node, key="star:centre")
+    r.check(not [b for b in bad if not b.startswith("junction 0:")], bind, "rim junctions: their edge-connected points", f"_bind_junction_neighbours on five quads meeting at point 0: {'; '.join([b for b in bad if not b.startswith('junction 0:')][:3])}", bind.node, key="star:rim")
+    return r
+
+
+irregular_valence.rule_id = "C15.IRREGULAR-VALENCE"
 
 
 # --------------------------------------------------------------------------------------------
@@ -480,4 +534,4 @@ def no_stale_lazy_cache(repo: Repo) -> RuleRun:
 
 no_stale_lazy_cache.rule_id = "C15.NO-STALE-CACHE"
 
-RULES = [write_guard, edge_neighbours, boundary_rule, backport, no_stale_lazy_cache]
+RULES = [write_guard, edge_neighbours, boundary_rule, backport, no_stale_lazy_cache, irregular_valence]
